@@ -162,6 +162,7 @@ type stepShape struct {
 	freeBits bool // all presence bits chosen by Bool()
 	preset   int  // when !freeBits: 0 = everything present (maximal interaction), 1 = no components/actions/assets but subscribers, 2 = components but no subscribers
 	mods     int
+	noFree   bool     // keep the preset also in the thorough tier (harnesses whose oracle assumes the preset)
 	symIDs   bool     // participant, entity and component-type ids start from arbitrary (symbolic) counters per session
 	rejoin   bool     // a0 was a member, had a switch refused and/or left for a session of its own, and joined again
 	flags    []string // feature flags of the world
@@ -199,6 +200,10 @@ func genStepParams(sh stepShape) *stepParams {
 }
 
 func newStepWorld(sh stepShape) *stepWorld {
+	if verifnd.Tier() == 1 && !sh.noFree {
+		// thorough tier: every presence bit of the pre-state is a free choice (all 2^8 combinations)
+		sh.freeBits = true
+	}
 	par := sh.par
 	if par == nil {
 		par = genStepParams(sh)
